@@ -195,6 +195,8 @@ seed("C13.R4.config-arg-swap", "C13", "C13.R4:runtime_builder", "connection limi
      (RB, "        60,\n        config.connection_limit,\n        config.item_size_limit.as_u64() as u32,\n        config.backlog_limit,\n    );\n\n    let core_ids", "        60,\n        config.item_size_limit.as_u64() as u32,\n        config.connection_limit,\n        config.backlog_limit,\n    );\n\n    let core_ids"))
 seed("C15.R2.remove-if-selects-more", "C15", "C15.R2:remove_if:selects-what-the-predicate-accepts", "the store's remove_if also removes items its predicate did not accept",
      ('memcrs/src/memory_store/store.rs', '            .filter(|record: &RefMulti<KeyType, Record>| f(record.key(), record.value()))', '            .filter(|record: &RefMulti<KeyType, Record>| f(record.key(), record.value()) || record.value().header.time_to_live == 1)'))
+seed("C15.R1.decrement-saturates", "C15", "C15.R1:", "usage decrement saturates at zero instead of wrapping (the stale reset then forgets the record being written)",
+     ('memcrs/src/memcache/random_policy.rs', '        self.memory_usage\n            .fetch_sub(value, atomic::Ordering::Release)', '        self.memory_usage\n            .fetch_update(atomic::Ordering::Release, atomic::Ordering::Relaxed, |v| Some(v.saturating_sub(value)))\n            .unwrap_or_else(|v| v)'))
 # ---------------------------------------------------------------- C16
 seed("C16.R1.guard-then-remove", "C16", "C16.R1:", "get_by_key removes while its guard is alive",
      (STORE, "            Some(record) => Ok(record.clone()),", "            Some(record) => {\n                if record.header.time_to_live == 1 {\n                    self.memory.remove(key);\n                }\n                Ok(record.clone())\n            }"))
@@ -406,6 +408,10 @@ neutral("N.ms-hit-counter", 'a statistics counter (second AtomicU64) in MemorySt
         ('memcrs/src/memory_store/store.rs', '    cas_id: AtomicU64,\n}', '    cas_id: AtomicU64,\n    lookups: AtomicU64,\n}'), ('memcrs/src/memory_store/store.rs', '            cas_id: AtomicU64::new(1),\n', '            cas_id: AtomicU64::new(1),\n            lookups: AtomicU64::new(0),\n'), ('memcrs/src/memory_store/store.rs', '    fn get_by_key(&self, key: &KeyType) -> Result<Record> {\n', '    fn get_by_key(&self, key: &KeyType) -> Result<Record> {\n        self.lookups.fetch_add(1, Ordering::Relaxed);\n'))
 neutral("N.rp-eviction-counter", 'an eviction counter (second AtomicU64) in RandomPolicy',
         ('memcrs/src/memcache/random_policy.rs', '    memory_usage: atomic::AtomicU64,\n}', '    memory_usage: atomic::AtomicU64,\n    evictions: atomic::AtomicU64,\n}'), ('memcrs/src/memcache/random_policy.rs', '            memory_usage: atomic::AtomicU64::new(0),\n', '            memory_usage: atomic::AtomicU64::new(0),\n            evictions: atomic::AtomicU64::new(0),\n'), ('memcrs/src/memcache/random_policy.rs', '                    debug!("Evicted: {} bytes from storage", len);\n', '                    debug!("Evicted: {} bytes from storage", len);\n                    self.evictions.fetch_add(1, atomic::Ordering::Relaxed);\n'))
+neutral("N.decr-fetch-update-wrapping", 'usage decrement as fetch_update(|v| Some(v.wrapping_sub(n)))',
+        ('memcrs/src/memcache/random_policy.rs', '        self.memory_usage\n            .fetch_sub(value, atomic::Ordering::Release)', '        self.memory_usage\n            .fetch_update(atomic::Ordering::Release, atomic::Ordering::Relaxed, |v| Some(v.wrapping_sub(value)))\n            .unwrap_or_else(|v| v)'))
+neutral("N.decr-fetch-add-neg", 'usage decrement as fetch_add(n.wrapping_neg())',
+        ('memcrs/src/memcache/random_policy.rs', '        self.memory_usage\n            .fetch_sub(value, atomic::Ordering::Release)', '        self.memory_usage\n            .fetch_add(value.wrapping_neg(), atomic::Ordering::Release)'))
 neutral("N.request-valid-reordered", "request_valid tests in another order and with <=",
         (CODEC, "        if self.header.extras_length > 20 {\n            return false;\n        }\n\n        if self.header.key_length > 250 {\n            return false;\n        }", "        if self.header.key_length >= 251 {\n            return false;\n        }\n\n        if !(self.header.extras_length <= 20) {\n            return false;\n        }"))
 neutral("N.handler-get-key-len-once", "hit response computes key length once",
